@@ -1,9 +1,157 @@
 (* C17 - cue mod tidy reaches a correct fixpoint; module files round-trip.
-   Only statements, closed by [exact], and Print Assumptions. *)
-From Verif Require Import Base.Order Tidy.Model Tidy.Examples.
+   Only statements, closed by [exact], and Print Assumptions.
+
+   The model (Tidy/Model.v) follows modload.Tidy / CheckTidy branch by branch for the
+   published view.  It REFUTES three clauses of the property as worded (idempotence,
+   acceptance of tidy's own output, closure under minimal version selection); the
+   witnesses below were replayed on the real code (design/C17.md, findings
+   F-C17-1..4).  The positive theorems state exactly what does hold. *)
+From Verif Require Import Base.Order Tidy.Model Tidy.Sets Tidy.Proofs Tidy.Examples.
 From Coq Require Import List NArith.
 Import ListNotations.
 
-Example C17_example_fresh_tidy : tidy_model 10 1000 u0 m0 d0 = TOk f0.
-Proof. exact w0_tidy. Qed.
+(* ---- order independence: files, imports, module.cue entries and registry contents
+        are SETS; any permutation, repetition or redistribution over files of the same
+        facts gives the same tidy result and the same check verdict --------------- *)
+Theorem C17_resolve_order_independent : forall fuel ifuel u u' m m' ds ds',
+  set_eq (u_mods u) (u_mods u') -> set_eq (u_deps u) (u_deps u') ->
+  set_eq (u_pkgs u) (u_pkgs u') -> set_eq (u_imps u) (u_imps u') -> set_eq (u_std u) (u_std u') ->
+  m_base m = m_base m' -> m_major m = m_major m' ->
+  set_eq (m_dirs m) (m_dirs m') -> set_eq (m_imports m) (m_imports m') ->
+  set_eq ds ds' ->
+  tidy_model fuel ifuel u m ds = tidy_model fuel ifuel u' m' ds' /\
+  check_model ifuel u m ds = check_model ifuel u' m' ds'.
+Proof. exact resolve_order_independent. Qed.
+Print Assumptions C17_resolve_order_independent.
+
+Theorem C17_permutations_are_set_equal : forall (A : Type) (l l' : list A),
+  Permutation.Permutation l l' -> set_eq l l'.
+Proof. exact @Permutation_set_eq. Qed.
+Print Assumptions C17_permutations_are_set_equal.
+
+(* ---- LoadPackages: exactly the packages transitively imported by the main module -- *)
+Theorem C17_load_computes_reachable : forall u mm ifuel rs l,
+  load u mm ifuel rs = Some l ->
+  (forall k, In k (map fst l) <-> Reach u mm rs k) /\
+  (forall k e, In (k, e) l -> e = process u mm rs k).
+Proof. exact load_reach. Qed.
+Print Assumptions C17_load_computes_reachable.
+
+(* ---- CheckTidy accepts exactly the module files that are tidy: every import of every
+        reachable package resolves, the entries are exactly the providers at the
+        versions they are loaded from (nothing missing, nothing unused) ------------ *)
+Theorem C17_is_tidy_check_accepts : forall u mm ifuel ds l,
+  load u mm ifuel (of_file mm ds) = Some l ->
+  (check u mm ifuel ds = CAccept <-> IsTidy u mm ds).
+Proof. exact is_tidy_check_accepts. Qed.
+Print Assumptions C17_is_tidy_check_accepts.
+
+(* ---- an accepted module file is a fixpoint of Tidy ------------------------------ *)
+Theorem C17_tidy_fixpoint_of_accepted : forall u mm fuel ifuel ds,
+  wf_file mm ds -> check u mm ifuel ds = CAccept -> tidy u mm (S fuel) ifuel ds = TOk ds.
+Proof. exact tidy_fixpoint_of_accepted. Qed.
+Print Assumptions C17_tidy_fixpoint_of_accepted.
+
+(* ---- resolve_sound, relative to the requirements tidy was working with when it
+        stopped (NOT relative to the written file: see the refutations) -------------- *)
+Theorem C17_resolve_sound : forall u mm fuel ifuel ds F,
+  tidy u mm fuel ifuel ds = TOk F ->
+  exists rs,
+    (forall k, Reach u mm rs k -> resolves u mm rs k) /\
+    (forall n, In n (map fst F) <-> exists k, Reach u mm rs k /\ provides u mm rs k n) /\
+    NoDup (map n_mpath (map fst F)) /\
+    (forall n, In n (map fst F) ->
+               root_selected rs (n_mpath n) = Some (snd n) \/ selected u rs (n_mpath n) = Some (snd n)).
+Proof. exact resolve_sound. Qed.
+Print Assumptions C17_resolve_sound.
+
+(* the version selected for a module path is the maximum over the (pruned) module graph *)
+Theorem C17_selected_is_max : forall u rs mp v,
+  selected u rs mp = Some v ->
+  In (fst mp, v) (graph_nodes u rs) /\
+  forall n, In n (graph_nodes u rs) -> n_mpath n = mp -> ver_le (snd n) v.
+Proof. exact selected_is_max. Qed.
+Print Assumptions C17_selected_is_max.
+
+Theorem C17_root_selected_is_max : forall rs mp v,
+  root_selected rs mp = Some v ->
+  In (fst mp, v) (r_roots rs) /\
+  forall n, In n (r_roots rs) -> n_mpath n = mp -> ver_le (snd n) v.
+Proof. exact root_selected_is_max. Qed.
+Print Assumptions C17_root_selected_is_max.
+
+(* ---- tidy writes a well-formed module file (sorted, one entry per module path, at
+        most one default per base path) ------------------------------------------- *)
+Theorem C17_tidy_output_wf : forall u mm,
+  (forall n, In n (u_mods u) -> fst n <> m_base mm) ->
+  forall fuel ifuel ds F, tidy u mm fuel ifuel ds = TOk F -> wf_file mm F.
+Proof. exact tidy_output_wf. Qed.
+Print Assumptions C17_tidy_output_wf.
+
+(* ---- idempotence and full soundness hold exactly when CheckTidy accepts the output *)
+Theorem C17_tidy_idempotent_when_accepted : forall u mm,
+  (forall n, In n (u_mods u) -> fst n <> m_base mm) ->
+  forall fuel fuel' ifuel ds F,
+    tidy u mm fuel ifuel ds = TOk F -> check u mm ifuel F = CAccept ->
+    tidy u mm (S fuel') ifuel F = TOk F.
+Proof. exact tidy_idempotent_when_accepted. Qed.
+Print Assumptions C17_tidy_idempotent_when_accepted.
+
+Theorem C17_tidy_output_is_tidy_when_accepted : forall u mm fuel ifuel ds F,
+  tidy u mm fuel ifuel ds = TOk F -> check u mm ifuel F = CAccept -> IsTidy u mm F.
+Proof. exact tidy_output_is_tidy_when_accepted. Qed.
+Print Assumptions C17_tidy_output_is_tidy_when_accepted.
+
+(* ---- the resolve loop stops within (#registry modules + 1) rounds ------------------ *)
+Theorem C17_resolve_fuel_sufficient : forall u mm fuel ifuel ds,
+  (length (u_mods u) < fuel)%nat -> tidy u mm fuel ifuel ds <> TFuel.
+Proof. exact resolve_fuel_sufficient. Qed.
+Print Assumptions C17_resolve_fuel_sufficient.
+
+(* ---- refutations (each witness replayed on modload.Tidy / CheckTidy) -------------- *)
+Theorem C17_tidy_idempotent_refuted :
+  exists u mm ds F, tidy_model 10 1000 u mm ds = TOk F /\ tidy_model 10 1000 u mm F <> TOk F.
+Proof. exact tidy_idempotent_refuted. Qed.
+Print Assumptions C17_tidy_idempotent_refuted.
+
+Theorem C17_tidy_idempotent_refuted_default_lost :
+  exists u mm ds F, tidy_model 10 1000 u mm ds = TOk F /\ tidy_model 10 1000 u mm F = TErr true false false.
+Proof. exact tidy_idempotent_refuted_default_lost. Qed.
+Print Assumptions C17_tidy_idempotent_refuted_default_lost.
+
+Theorem C17_tidy_idempotent_refuted_grows :
+  exists u mm ds F F', tidy_model 10 1000 u mm ds = TOk F /\ tidy_model 10 1000 u mm F = TOk F' /\ F <> F'.
+Proof. exact tidy_idempotent_refuted_grows. Qed.
+Print Assumptions C17_tidy_idempotent_refuted_grows.
+
+Theorem C17_check_accepts_output_refuted :
+  exists u mm ds F, tidy_model 10 1000 u mm ds = TOk F /\ check_model 1000 u mm F <> CAccept.
+Proof. exact check_accepts_output_refuted. Qed.
+Print Assumptions C17_check_accepts_output_refuted.
+
+Theorem C17_mvs_closed_refuted :
+  exists u mm ds F, tidy_model 10 1000 u mm ds = TOk F /\ check_model 1000 u mm F = CAccept /\ ~ mvs_closed u F.
+Proof. exact mvs_closed_refuted. Qed.
+Print Assumptions C17_mvs_closed_refuted.
+
+(* ---- non-vacuity ------------------------------------------------------------------ *)
+Example C17_example_fresh_tidy :
+  tidy_model 10 1000 u0 m0 d0 = TOk f0 /\
+  tidy_model 10 1000 u0 m0 f0 = TOk f0 /\ check_model 1000 u0 m0 f0 = CAccept /\
+  check_model 1000 u0 m0 d0 = CErr true false false.
+Proof. exact (conj w0_tidy (conj (proj1 w0_idempotent) (conj (proj2 w0_idempotent) w0_check_rejects_input))). Qed.
 Print Assumptions C17_example_fresh_tidy.
+
+Example C17_example_is_tidy :
+  IsTidy (norm_universe u0) (norm_main m0) f0 /\ wf_file (norm_main m0) f0 /\ mvs_closed (norm_universe u0) f0.
+Proof. exact (conj w0_is_tidy (conj w0_wf w0_mvs_closed)). Qed.
+Print Assumptions C17_example_is_tidy.
+
+Example C17_example_order : tidy_model 10 1000 u0' m0 (d0 ++ d0) = TOk f0.
+Proof. exact w0_order. Qed.
+Print Assumptions C17_example_order.
+
+Example C17_example_pruned_candidate_upgrades :
+  tidy_model 10 1000 u4 m4 [] = TOk [plain ([a], v 0 1); plain ([b], v 0 3); plain ([c], v 0 1)].
+Proof. exact w4_tidy. Qed.
+Print Assumptions C17_example_pruned_candidate_upgrades.
